@@ -46,6 +46,90 @@ def match_model(impl, model_alt):
     return None
 
 
+EFF_ARITY = {"StatDir": "b", "StatMarker": "b", "StatZip": "b", "OpenMod": "b"}
+
+
+def coq_label(tok):
+    """case token -> Coq term of type (label * bool)."""
+    p = tok.split(":")
+    if p[0] == "S":
+        return "(Spawn %s %s, false)" % (p[1], {"F": "KFetch", "C": "KFromCache", "M": "KModFile"}[p[2]])
+    if p[0] == "X":
+        return "(Crash %s, false)" % p[1]
+    name, args = p[2], p[3:]
+    if name in EFF_ARITY:
+        return "(Eff %s (%s %s), true)" % (p[1], name, "true" if args[0] == "1" else "false")
+    e = name if not args else "(%s %s)" % (name, " ".join(args))
+    return "(Eff %s %s, false)" % (p[1], e)
+
+
+def vm_crosscheck(ctx, cases, model, limit):
+    """Evaluate the same acceptance function inside Coq (vm_compute) on a few cases and compare with
+    the extracted OCaml run: guards the extraction and the driver's parsing/printing."""
+    picked = []
+    for c, m in zip(cases, model):
+        toks = c.split("|", 1)[1].split()
+        nums = [int(x) for x in re.findall(r"\d+", c.split(" ", 2)[2])]
+        if len(toks) <= 260 and max(nums) < 2500 and "||" not in m and "sum=" in m:
+            picked.append((c, m))
+        if len(picked) >= limit:
+            break
+    if not picked:
+        return 0
+    src = ["From Verif Require Import Cache.Model Extract.C16.", "From Coq Require Import List.", "Import ListNotations."]
+    for n, (c, m) in enumerate(picked):
+        head = c.split("|", 1)[0].split()
+        toks = c.split("|", 1)[1].split()
+        src.append("Definition ls%d : list (label * bool) := [%s]." % (n, "; ".join(coq_label(t) for t in toks)))
+        src.append("Eval vm_compute in (c16_run (c16_cfg %s %s [%s]) ls%d %s)." % (head[2], head[3], head[4].replace(",", "; "), n, head[5]))
+    vf = os.path.join(ctx.work, "xcheck.v")
+    open(vf, "w").write("\n".join(src) + "\n")
+    p = vlib.run(["timeout", "600", "coqc", "-Q", os.path.join(vlib.COQ, "theories"), "Verif", vf], cwd=ctx.work, check=False)
+    if p.returncode != 0:
+        raise vlib.CheckFailure("vm_compute cross-check did not compile:\n" + p.stdout[-2000:])
+    outs = re.findall(r"=\s*(in[lr]\b.*?)\n\s*:", p.stdout, re.S)
+    if len(outs) != len(picked):
+        raise vlib.CheckFailure("vm_compute cross-check: %d results for %d cases" % (len(outs), len(picked)))
+    for (c, m), o in zip(picked, outs):
+        o = " ".join(o.split())
+        if not o.startswith("inl"):
+            raise vlib.CheckFailure("vm_compute rejects a trace that the extracted model accepts: " + c[:300])
+        sums, skipped = eval(o[3:].strip().replace(";", ","))
+        want = eval(re.search(r"sum=(\[.*\])", m).group(1))
+        sk = int(re.search(r"skipped=(\d+)", m).group(1))
+        if sums != [want] or skipped != sk:
+            raise vlib.CheckFailure("extraction/driver disagree with vm_compute on %s: %r vs %r" % (c[:120], sums, want))
+    return len(picked)
+
+
+def perturb(rng_state, toks):
+    """One small corruption of a label sequence; returns (kind, tokens) or None."""
+    idx = [i for i, t in enumerate(toks) if t.startswith("E:") and t.split(":")[2] not in EFF_ARITY]
+    if len(idx) < 4:
+        return None, None
+    rng_state[0], r = vlib.splitmix64(rng_state[0])
+    kind = ["drop", "dup", "swap", "retarget"][r % 4]
+    rng_state[0], r = vlib.splitmix64(rng_state[0])
+    i = idx[r % len(idx)]
+    out = list(toks)
+    if kind == "drop":
+        del out[i]
+    elif kind == "dup":
+        out.insert(i, out[i])
+    elif kind == "swap":
+        th = toks[i].split(":")[1]
+        js = [j for j in idx if j > i and toks[j].split(":")[1] == th and toks[j] != toks[i]]
+        if not js:
+            return None, None
+        j = js[0]
+        out[i], out[j] = out[j], out[i]
+    else:  # the effect is attributed to another (new) thread id
+        p = out[i].split(":")
+        p[1] = str(int(p[1]) + 97)
+        out[i] = ":".join(p)
+    return kind, out
+
+
 def run(ctx):
     quick = ctx.tier == "quick"
     proof = vlib.prove("C16", extra_targets=["theories/Extract/C16.vo"])
@@ -54,7 +138,10 @@ def run(ctx):
         if proof["coqchk_rc"] != 0:
             raise vlib.CheckFailure("coqchk failed: " + proof["coqchk_tail"])
     exe = vlib.build_model("C16", "extract/C16.v", "ocaml/c16_driver.ml")
-    harness, hsecs = vlib.build_harness("c16")
+    # VERIF_C16_OVERLAY: JSON {"<path relative to /repo>": "<replacement file>"} - lets a mutated copy of an
+    # anchored file be compiled in through the build overlay without touching /repo (mutation testing only).
+    shims = json.loads(os.environ.get("VERIF_C16_OVERLAY", "{}")) or None
+    harness, hsecs = vlib.build_harness("c16", shims=shims)
     args = [harness, "run", "--seed", str(ctx.seed), "--out", ctx.work, "--tier", ctx.tier, "--jobs", "14"]
     if ctx.replay:
         rp = json.load(open(ctx.replay))
@@ -136,6 +223,29 @@ def run(ctx):
                 ctx.violation({"kind": "impl-differs-from-proved-model", "what": why, "case": c[:4000], "impl": i, "model": m,
                                "history": by_id.get(hid, {}).get("history"),
                                "replay": "bin/check C16 --replay <this file>"}, no_input=True)
+    # negative stream: corrupted label sequences must not be accepted with the observed outcome
+    rs = [ctx.seed * 7919 + 17]
+    neg_cases, neg_impl, neg_kind = [], [], []
+    for c, i, m in zip(cases, impl, model):
+        if m.startswith("REJECT") or len(neg_cases) >= (150 if quick else 1500):
+            continue
+        head, toks = c.split("|", 1)
+        kind, out = perturb(rs, toks.split())
+        if out:
+            neg_cases.append(head + "| " + " ".join(out))
+            neg_impl.append(i)
+            neg_kind.append(kind)
+    neg_detected = {}
+    neg_total = {}
+    if neg_cases:
+        pn = vlib.run([exe], input="\n".join(neg_cases) + "\n", timeout=3000, stderr=None)
+        for k, i, m in zip(neg_kind, neg_impl, pn.stdout.split("\n")[:-1]):
+            neg_total[k] = neg_total.get(k, 0) + 1
+            if m.startswith("REJECT") or m.startswith("DRIVER") or all(match_model(i, alt) for alt in m.split("||")):
+                neg_detected[k] = neg_detected.get(k, 0) + 1
+        if sum(neg_detected.values()) * 10 < sum(neg_total.values()) * 9:
+            raise vlib.CheckFailure("trace acceptor is insensitive: only %d of %d corrupted traces detected" % (sum(neg_detected.values()), sum(neg_total.values())))
+    xchecked = vm_crosscheck(ctx, cases, model, 2 if quick else 8)
     if not samples and cases:
         samples.append({"case": cases[0][:600], "impl": impl[0], "model": model[0][:300]})
     ctx.coverage.update({
@@ -162,6 +272,9 @@ def run(ctx):
         "traced_calls": threads,
         "stages_ending_with_directory_available": avail,
         "violations_found": violations,
+        "corrupted_traces_run": neg_total,
+        "corrupted_traces_detected": neg_detected,
+        "vm_compute_crosschecked_cases": xchecked,
         "samples": samples,
         "harness_build_s": hsecs,
         "proof": {k: v for k, v in proof.items() if k.startswith("coqchk") or k in ("make_s",)},
